@@ -98,7 +98,11 @@ func NetFlowPopulate(dataFields []netflow.DataField, typeId uint16, addr interfa
 				t64 := int64(t / 1000)
 				*addrt = time.Unix(t64, 0)
 			case *byte, *uint16, *uint32, *uint64:
-				// unsigned elements may be exported with a reduced-size encoding (RFC 7011 section 6.2)
+				// unsigned elements may be exported with a reduced-size encoding (RFC 7011 section 6.2);
+				// a value wider than 8 bytes is not a number: the element is ignored
+				if len(valueBytes) > 8 {
+					return false, nil
+				}
 				if err := DecodeUNumber(valueBytes, addr); err != nil {
 					return false, err
 				}
